@@ -700,6 +700,20 @@ func hasNegZero(l []ser) bool {
 	return false
 }
 
+// dropMaxT removes the samples with timestamp MaxInt64.
+func dropMaxT(l []ser) []ser {
+	out := make([]ser, len(l))
+	for i, s := range l {
+		out[i] = ser{L: s.L}
+		for _, x := range s.S {
+			if x.T != math.MaxInt64 {
+				out[i].S = append(out[i].S, x)
+			}
+		}
+	}
+	return out
+}
+
 // posZero replaces float -0 by +0.
 func posZero(l []ser) []ser {
 	out := make([]ser, len(l))
@@ -1044,6 +1058,8 @@ func runCase(f gallina.Flags, meta *gallina.Meta, cf *gallina.CaseFile, rg *rig,
 	} else if sampled.Kind != "ok" || !equalSeries(canon(sampled.L), want) {
 		if sampled.Kind == "ok" && hasNegZero(direct) && equalSeries(canon(sampled.L), posZero(want)) {
 			why = append(why, "sampled-negative-zero")
+		} else if sampled.Kind == "ok" && equalSeries(canon(sampled.L), canon(dropMaxT(want))) {
+			why = append(why, "sampled-maxint64-dropped")
 		} else {
 			why = append(why, "sampled-unexplained")
 		}
